@@ -254,12 +254,28 @@ void Client::drain()
 
 void Client::chatter_tick()
 {
-    if (st.finished || st.closed_by_us || st.reset || !sock || chatter_count <= 0) return;
-    chatter_count--;
-    size_t n = sock->send(chatter_data.data(), chatter_data.size());
-    st.bytes_sent += n;
+    if (st.finished || st.closed_by_us || st.reset || !sock) return;
+    // a chatter message goes out whole, and never into the middle of a scripted Send (nor a scripted Send into the
+    // middle of it): what is left of a message that did not fit is sent first, and a Send step waits for it
+    const bool send_in_progress = pc < steps.size() && steps[pc].kind == Step::Send && step_started && send_off > 0 && send_off < steps[pc].data.size();
+    if (!send_in_progress) {
+        if (chatter_left.empty() && chatter_count > 0) {
+            chatter_count--;
+            chatter_left = chatter_data;
+        }
+        if (!chatter_left.empty()) {
+            size_t n = sock->send(chatter_left.data(), chatter_left.size());
+            st.bytes_sent += n;
+            chatter_left.erase(0, n);
+        }
+    }
+    if (chatter_count <= 0 && chatter_left.empty()) {
+        poke();
+        return;
+    }
     auto self = shared_from_this();
-    sim::schedule_in(chatter_ns, [self] { self->chatter_tick(); }, "client.chatter");
+    sim::schedule_in(chatter_left.empty() ? chatter_ns : std::min<i64>(chatter_ns, 200 * 1000), [self] { self->chatter_tick(); }, "client.chatter");
+    if (chatter_left.empty()) poke();
 }
 
 void Client::on_event(uint32_t ev)
@@ -317,6 +333,9 @@ void Client::poke()
                 st.send_done.push_back(-1);
                 advance = true;
                 break;
+            }
+            if (!step_started || send_off == 0) {
+                if (!chatter_left.empty()) return; // the rest of a chatter message goes first (chatter_tick pokes us)
             }
             if (!step_started) {
                 step_started = true;
